@@ -18,13 +18,16 @@ PROP = {'gen': [],
  'props_module': 'Props.C05',
  'corr_check': 'SNT.Corr.C05Corr.c05_check (model Encoder/Encode.v vs surf_n_term::encoder::TTYEncoder::encode; predicate: '
                'independent VT/xterm parser+interpreter Encoder/VT.v applied to the implementation bytes = Encoder/Denote.v)',
- 'level_text': 'Coq theorems over an executable model of TTYEncoder::encode (all 27 TerminalCommand variants, Chunks join, colour '
+ 'level_text': 'Coq theorems over an executable model of TTYEncoder::encode (all 27 TerminalCommand variants; 24 carry content, Image/ImageErase emit nothing in this encoder and Raw means its '
+               'own bytes, so those three arms are tautological; Chunks join, colour '
                'encoding per depth, alt-screen keyboard bracketing) and an independent UTF-8-mode ECMA-48/xterm parser+interpreter '
                'written from the standards: for EVERY command and parameter value in the domain (usize/i32 extremes included) and '
                'every capability set the emitted bytes are interpreted as exactly the command\'s denotation; Face in true colour '
                'maps ANY prior rendition to exactly the face; reduced depths select one palette entry per colour; after every '
                'command the parser is back in its initial state, so streams of commands parse back into the same operations '
-               'whatever complete output preceded; the model has no Panic path for any input. DEC mode numbers, KEYBOARD_LEVEL and '
+               'whatever complete output preceded; the model has no Panic path for any input, also with the C20 colour reduction (table '
+               'indexing, nearest) plugged in (C05_nopanic_with_reduction; f32 evaluation itself is not modelled and is covered by the '
+               'exhaustive c20sweep run, which reports encoder panics). DEC mode numbers, KEYBOARD_LEVEL and '
                'grey-depth SGR codes are regenerated from the source each run and the theorems re-checked; the model is tied to the '
                'code by a differential run (single commands and streams through one encoder object).',
  'level_note': 'Trusted: Coq kernel + vm_compute; translate/enc_tables.py; hand-written model Encoder/Encode.v validated by the '
@@ -49,6 +52,7 @@ PROP = {'gen': [],
  'assumptions': ['terminal in UTF-8 mode (C1 controls recognised as decoded code points); a zero or omitted numeric parameter of '
                  'cursor/erase/scroll functions means 1 (xterm); SGR 22 = normal intensity, 21 = double underline (ECMA-48)',
                  'domain of the meaning theorems (cmd_ok): usize / i32 ranges, colour channels < 256, titles without control '
-                 'characters (Unicode Cc), Char other than ESC, DEL and C1, the capability-name list is not [""]; Raw means its bytes '
+                 'characters (Unicode Cc), Char other than the seven characters that open a control sequence or string (ESC, C1 DCS SOS '
+                 'CSI OSC PM APC: known finding C05-char-introducer, C05_char_introducer_refuted); Raw means its bytes '
                  'and is excluded from self-containedness',
                  'writes into the output never fail (io errors are outside the model)']}
